@@ -76,6 +76,70 @@ def c_type_of(rust_ty):
     return t.split('::')[-1]
 
 
+def counting_loop_ok(ctx, ma, v, ca):
+    """loop form of `.zip(actions.iter_mut()).map(|(a, out)| out.write(a)).count()`: the returned counter starts at 0 and is
+    incremented exactly once, next to exactly one write, on every iteration of a loop over
+    zip(map(trigger_events(..), convert_action), actions.iter_mut())"""
+    from .rules_limits import min_max_on_paths
+    alts = v[1]
+    if len(alts) != 2 or not any(is_const(a, 0) for a in alts):
+        return False
+    inc = [a for a in alts if a[0] == 'bin' and a[1] == 'Add' and a[2][0] == 'rec' and is_const(a[3], 1)]
+    if len(inc) != 1:
+        return False
+    ctr = inc[0][2][1]
+    loops = ma.cfg.loops()
+    writes = [(b, a) for (b, f, a, t) in calls(ma) if callee_str(f).endswith('MaybeUninit::<T>::write') or callee_str(f).endswith('<impl *mut T>::write')]
+    if len(writes) != 1:
+        return False
+    wb, wargs = writes[0]
+    hs = [h for h, body in loops.items() if wb in body]
+    if len(hs) != 1:
+        return False
+    h = hs[0]
+    body = loops[h]
+    # the loop's iterator: Zip::next whose receiver was built from zip(map(trigger_events, convert_action), iter_mut(actions))
+    nxt = unload(unload(wargs[0])[1]) if unload(wargs[0])[0] == 'fld' else None
+    elem = None
+    for x in walk(wargs[0]):
+        if is_call(x, 'Iterator>::next') and 'zip::Zip' in x[1]:
+            elem = x
+    if elem is None:
+        return False
+    okz = False
+    for (b, f, a, t) in calls(ma):
+        if (callee_decl(f) or '').endswith('Iterator::zip') and ma.cfg.dominates(b, h):
+            okz = contains(a[1], lambda y: is_call(y, 'iter_mut') and contains(y, lambda z: z == ('param', 3))) and \
+                contains(a[0], lambda x: is_call(x, 'Framework::<M, R, T>::trigger_events')) and \
+                contains(a[0], lambda x: isinstance(x, tuple) and x and x[0] == 'fn' and x[1] == ca.key)
+    if not okz:
+        return False
+    # write(out = element.1, value = element.0)
+    def comp(e, i):
+        e = unload(e)
+        return e[0] == 'fld' and e[3] == str(i) and contains(e[1], lambda x: x is elem or strip_sites(x) == strip_sites(elem))
+    if not (comp(wargs[0], 1) and comp(wargs[1], 0)):
+        return False
+    # exactly one write and one increment per iteration; increments nowhere else
+    incs = []
+    for b in sorted(ma.cfg.reach):
+        for k, s in enumerate(ma.blocks[b]['s']):
+            if 'p' in s and not s['p']['pr'] and s['p']['l'] == ctr:
+                val = ma.rvalue(s['rv'], (b, k))
+                if is_const(val, 0):
+                    if b in body:
+                        return False
+                    continue
+                incs.append(b)
+    if len(incs) != 1 or incs[0] not in body:
+        return False
+    if min_max_on_paths(ma, h, {wb}, body, stop_at_header=True) != (1, 1):
+        return False
+    if min_max_on_paths(ma, h, {incs[0]}, body, stop_at_header=True) != (1, 1):
+        return False
+    return ma.cfg.dominates(wb, incs[0]) or ma.cfg.dominates(incs[0], wb)
+
+
 def check_C20(ctx, rep):
     prog, an = ctx.prog, ctx.an
     rep.rule('C20.R1', 'translation tables: convert_action is exhaustive over TriggerAction and fills every destination field from the same-named '
@@ -248,6 +312,8 @@ def check_C20(ctx, rep):
         ch = rv[0]
         okc = contains(ch, lambda x: is_call(x, 'Iterator::zip') and contains(x[2][1], lambda y: is_call(y, 'iter_mut') and contains(y, lambda z: z == ('param', 3)))) and \
             contains(ch, lambda x: is_call(x, 'Framework::<M, R, T>::trigger_events')) and contains(ch, lambda x: isinstance(x, tuple) and x and x[0] == 'fn' and x[1] == ca.key)
+    if not okc and len(rv) == 1 and rv[0][0] == 'phi':
+        okc = counting_loop_ok(ctx, ma, rv[0], ca)
     rep.ob('C20.R3', me, 'count-is-number-of-zipped-writes', okc, 'returns %s' % (shape(rv[0]) if rv else '?'))
     # events are converted one to one, in order
     pushes = [(b, a) for (b, f, a, t) in calls(ma) if callee_str(f).endswith('Vec::<T, A>::push')]
